@@ -23,6 +23,7 @@ type sqlCase struct {
 	texts     []string
 	tags      []string
 	expectErr []bool // the property requires an error (ambiguity probes)
+	mayRefuse map[int]bool // refusing the query as ambiguous is as acceptable as the right answer
 	reopen    bool
 }
 
@@ -109,6 +110,10 @@ func runSQLCaseKeep(c *core.Ctx, prop, drv string, idx int, sc *sqlCase, m *mode
 			continue
 		}
 		c.Eval(sc.texts[qi], len(exp.Rows) > 0)
+		if res.Err != "" && sc.mayRefuse[qi] && strings.Contains(res.Err, "ambiguous") {
+			c.Count("refused_as_ambiguous_where_that_is_acceptable", 1)
+			continue
+		}
 		if res.Err != "" {
 			cls := errKind(res.Err)
 			c.Violation(prop+":query-error:"+cls, fmt.Sprintf("well-typed query returned an error: %s\n%s", res.Err, sc.texts[qi]), replay)
@@ -285,6 +290,34 @@ func checkC05(c *core.Ctx) []core.Floor {
 			sc.tags = append(sc.tags, clauseTag(q))
 			sc.expectErr = append(sc.expectErr, false)
 		}
+		// an alias that is the name of another column of the table: WHERE
+		// (which sees the table's column) pins that column to a literal, ORDER
+		// BY (which sees the alias) sorts by the aliased column
+		for k := 0; k < 3; k++ {
+			shadowed := []string{"a", "s", "f", "b"}[r.Intn(4)]
+			typ := map[string]string{"a": "int", "s": "varchar", "f": "boolean", "b": "bigint"}[shadowed]
+			src := []string{"u", "u", "a", "s", "b"}[r.Intn(5)]
+			if src == shadowed {
+				src = "u"
+			}
+			q := &proto.NStmt{Kind: "select", From: []proto.NTable{{Name: "t1"}},
+				Items:   []proto.NItem{{Kind: "expr", Expr: &proto.Cond{Op: "val", LHS: model.ColOp(src)}, Alias: shadowed}},
+				Where:   &proto.Cond{Op: "=", LHS: model.ColOp(shadowed), RHS: model.LitOp(g.LitFor(typ))},
+				OrderBy: []proto.NOrder{{Col: proto.Operand{Col: shadowed}, Desc: r.Bool()}}}
+			if r.Bool() {
+				q.Where = model.And(q.Where, &proto.Cond{Op: ">=", LHS: model.ColOp("u"), RHS: model.LitOp(proto.Int(int64(r.Intn(5))))})
+			}
+			if r.Chance(1, 3) {
+				q.Items = append(q.Items, proto.NItem{Kind: "expr", Expr: &proto.Cond{Op: "val", LHS: model.ColOp("u")}, Alias: "uu"})
+			}
+			if r.Chance(1, 3) {
+				q.HasLimit, q.Limit = true, r.Range(1, 5)
+			}
+			sc.queries = append(sc.queries, q)
+			sc.texts = append(sc.texts, model.RenderN(q, randStyle(r)))
+			sc.tags = append(sc.tags, "alias_shadows_a_pinned_column")
+			sc.expectErr = append(sc.expectErr, false)
+		}
 		// queries that differ from one another only in the blanks inside a
 		// string literal, written identically otherwise, one after the other
 		if i%4 == 0 {
@@ -447,6 +480,44 @@ func checkC06(c *core.Ctx) []core.Floor {
 				q.Items = []proto.NItem{{Kind: "expr", Expr: &proto.Cond{Op: "val", LHS: model.ColOp(col)}}, {Kind: "count"}}
 				q.GroupBy = []proto.Operand{{Col: col}}
 			}
+			if k == 9 && len(q.From) == 2 {
+				q.From = append(q.From, proto.NTable{Name: "t3", Join: []string{"inner", "left", "right"}[r.Intn(3)],
+					On: &proto.Cond{Op: "=", LHS: model.QColOp("t2", "u"), RHS: model.QColOp("t3", "u")}})
+			}
+			if k == 9 {
+				// partial overlap: a name that only ONE of the first two tables
+				// has is used unqualified (legitimately) in the first ON, and
+				// again after a third table that also has it was joined
+				var only []string
+				for _, name := range []string{"b", "s", "f"} {
+					has := func(tn string) bool {
+						for _, cl := range m.Table(tn).Cols {
+							if cl.Name == name {
+								return true
+							}
+						}
+						return false
+					}
+					if has("t1") != has("t2") && has("t3") {
+						only = append(only, name)
+					}
+				}
+				if len(only) > 0 {
+					col = only[r.Intn(len(only))]
+					typ = map[string]string{"s": "varchar", "b": "bigint", "f": "boolean"}[col]
+					pos = "after_legitimate_use_in_an_earlier_on"
+					q.Items, q.GroupBy, q.Star = nil, nil, true
+					q.From[1].On = model.And(&proto.Cond{Op: "=", LHS: model.QColOp("t1", "u"), RHS: model.QColOp("t2", "u")}, cmp())
+					switch r.Intn(3) {
+					case 0:
+						q.From[2].On = model.And(q.From[2].On, cmp())
+					case 1:
+						q.Where = cmp()
+					default:
+						q.OrderBy = []proto.NOrder{{Col: proto.Operand{Col: col}}}
+					}
+				}
+			}
 			c.Count("ambiguity_probe_in_"+pos, 1)
 			sc.queries = append(sc.queries, q)
 			sc.texts = append(sc.texts, model.RenderN(q, randStyle(r)))
@@ -526,6 +597,9 @@ func runC07(c *core.Ctx, drv string, idx int) {
 		join := ""
 		if r.Chance(1, 4) {
 			join = "dim"
+		} else if r.Chance(1, 10) {
+			join = "aliastwin"
+			c.Count("grouping_column_aliased_to_the_name_of_another_grouping_column", 1)
 		} else if r.Chance(1, 8) {
 			join = "both"
 			c.Count("three_table_join_with_narrow_tables", 1)
@@ -542,6 +616,12 @@ func runC07(c *core.Ctx, drv string, idx int) {
 			if q.From[0].Alias == "" {
 				// qualifier = table name: rewrite qualified references
 				q = requalify(q, "p0", q.From[0].Name)
+			}
+			if join == "aliastwin" {
+				if sc.mayRefuse == nil {
+					sc.mayRefuse = map[int]bool{}
+				}
+				sc.mayRefuse[len(sc.queries)] = true
 			}
 			sc.queries = append(sc.queries, &q)
 			st.R = core.NewRand(uint64(idx*1000 + k)) // same rendering for the three
